@@ -38,6 +38,21 @@ pub struct ExecConfig {
     /// per mille probability that a probe also moves the simulated clock forward by a seeded amount
     /// (milliseconds to hours): the calling thread was "away for a while"
     pub clock_jump_permille: u32,
+    /// "slow or stalled thread" fault: 0 = off; otherwise the k-th function entry of a simulated thread (every
+    /// non-const `fn` of the generated tree starts with `stall_point()`) is a scheduling point when
+    /// hash(stall_seed, task, k) % stall_period == 0 -- a function of the configuration and of the thread's own
+    /// progress only, never a draw from the scheduler's random stream, so that an inert stall point costs no step
+    /// of the recorded schedule and replays exactly. A stall lasts 1, 4, 16 or 64 consecutive context switches.
+    pub stall_period: u32,
+    pub stall_seed: u64,
+    /// at most this many stalls per execution
+    pub stall_budget: u32,
+    /// per mille of the lock acquisitions (shim `Mutex` / `RwLock`) after which the new holder is descheduled
+    /// for 4-64 context switches
+    pub hold_permille: u32,
+    /// only simulated threads whose task id has its bit set here stall (bit = id % 32): one slow thread among
+    /// fast ones, or all of them
+    pub stall_tasks: u32,
 }
 
 pub const PROBE_SITES: &[&str] = &[
@@ -63,6 +78,11 @@ pub struct ExecStats {
     pub short_reads: u64,
     pub eintr_reads: u64,
     pub clock_jumps: u64,
+    /// function entries seen by `stall_point()` while the fault kind was enabled / stalls taken / context switches spent in them
+    pub fn_entries: u64,
+    pub stalls: u64,
+    pub holds: u64,
+    pub stall_switches: u64,
     /// operations on a dependency's process-wide atomics (pest's call limit / error detail), each a scheduling point
     pub dep_atomic_ops: u64,
     /// hash of the (task, site) sequence of all scheduling points taken through the shim
@@ -78,6 +98,9 @@ struct State {
     clock_draws_left: u32,
     active: bool,
     work: u64,
+    stalls_left: u32,
+    fn_counts: BTreeMap<usize, u64>,
+    hold_counts: BTreeMap<usize, u64>,
 }
 
 std::thread_local! {
@@ -90,6 +113,9 @@ std::thread_local! {
         clock_draws_left: 0,
         active: false,
         work: 0,
+        stalls_left: 0,
+        fn_counts: BTreeMap::new(),
+        hold_counts: BTreeMap::new(),
     });
 }
 
@@ -118,6 +144,9 @@ pub fn begin_execution(cfg: ExecConfig) {
         let mut s = s.borrow_mut();
         s.yields_left = cfg.probe_yield_budget;
         s.clock_draws_left = 2000;
+        s.stalls_left = cfg.stall_budget;
+        s.fn_counts.clear();
+        s.hold_counts.clear();
         s.cfg = cfg;
         s.stats = ExecStats::default();
         s.in_force.clear();
@@ -195,6 +224,96 @@ pub fn probe(site: &'static str) {
             s.stats.probe_yields += 1;
         });
         sig(idx.unwrap_or(99) as u64 + 1);
+        shuttle::thread::sleep(std::time::Duration::from_secs(0));
+    }
+}
+
+fn mix64(a: u64, b: u64) -> u64 {
+    let mut z = a ^ b.wrapping_mul(0x9E37_79B9_7F4A_7C15);
+    z = (z ^ (z >> 30)).wrapping_mul(0xBF58_476D_1CE4_E5B9);
+    z = (z ^ (z >> 27)).wrapping_mul(0x94D0_49BB_1331_11EB);
+    z ^ (z >> 31)
+}
+
+/// First statement of every non-const `fn` of the generated tree (inserted by bin/gen-shadow; nothing of it is in
+/// /repo): the "slow or stalled thread" fault. Inert (no scheduling step, no random draw) unless the running
+/// execution enabled it; see `ExecConfig::stall_period`.
+#[inline]
+pub fn stall_point() {
+    let n = STATE
+        .try_with(|s| {
+            let Ok(mut s) = s.try_borrow_mut() else { return 0 };
+            if !s.active || s.cfg.stall_period == 0 {
+                return 0;
+            }
+            s.stats.fn_entries += 1;
+            if s.stalls_left == 0 {
+                return 0;
+            }
+            let t = task_id();
+            if s.cfg.stall_tasks & (1 << (t % 32)) == 0 {
+                return 0;
+            }
+            let k = {
+                let c = s.fn_counts.entry(t).or_insert(0);
+                *c += 1;
+                *c
+            };
+            let h = mix64(s.cfg.stall_seed ^ (t as u64).wrapping_mul(0xD6E8_FEB8_6659_FD93), k);
+            if h % s.cfg.stall_period as u64 != 0 {
+                return 0;
+            }
+            s.stalls_left -= 1;
+            s.stats.stalls += 1;
+            let n = [1u32, 4, 16, 64][((h >> 40) % 4) as usize];
+            s.stats.stall_switches += n as u64;
+            n
+        })
+        .unwrap_or(0);
+    if n == 0 || std::thread::panicking() {
+        return;
+    }
+    sig(200);
+    for _ in 0..n {
+        shuttle::thread::sleep(std::time::Duration::from_secs(0));
+    }
+}
+
+/// Called by the shim's `Mutex` / `RwLock` right after an acquisition: the "slow holder" form of the stall fault
+/// (`ExecConfig::hold_permille`; same budget, same rule: a function of the configuration and of the thread's own
+/// progress, no random draw).
+pub fn hold_point() {
+    let n = STATE
+        .try_with(|s| {
+            let Ok(mut s) = s.try_borrow_mut() else { return 0 };
+            if !s.active || s.cfg.hold_permille == 0 || s.stalls_left == 0 {
+                return 0;
+            }
+            let t = task_id();
+            if s.cfg.stall_tasks & (1 << (t % 32)) == 0 {
+                return 0;
+            }
+            let k = {
+                let c = s.hold_counts.entry(t).or_insert(0);
+                *c += 1;
+                *c
+            };
+            let h = mix64(s.cfg.stall_seed ^ 0x5EED_0F_4011D ^ (t as u64).wrapping_mul(0xD6E8_FEB8_6659_FD93), k);
+            if h % 1000 >= s.cfg.hold_permille as u64 {
+                return 0;
+            }
+            s.stalls_left -= 1;
+            s.stats.holds += 1;
+            let n = [4u32, 16, 64][((h >> 40) % 3) as usize];
+            s.stats.stall_switches += n as u64;
+            n
+        })
+        .unwrap_or(0);
+    if n == 0 || std::thread::panicking() {
+        return;
+    }
+    sig(201);
+    for _ in 0..n {
         shuttle::thread::sleep(std::time::Duration::from_secs(0));
     }
 }
@@ -286,7 +405,112 @@ pub mod sync {
     // (Arc, Weak, PoisonError, LockResult, TryLockError, ...); explicit items below shadow the glob.
     pub use std::sync::*;
 
-    pub use shuttle::sync::{Barrier, BarrierWaitResult, Condvar, Mutex, MutexGuard, RwLock, RwLockReadGuard, RwLockWriteGuard, WaitTimeoutResult};
+    pub use shuttle::sync::{Barrier, BarrierWaitResult, Condvar, MutexGuard, RwLockReadGuard, RwLockWriteGuard, WaitTimeoutResult};
+
+    /// shuttle's `Mutex` / `RwLock` plus the "slow holder" fault: in a stall run the thread that has just
+    /// acquired the lock may be descheduled for 4-64 context switches while it holds it (`hold_point`), which is
+    /// what makes `try_lock` fallbacks and long waits behind a writer reachable. Guards are shuttle's own.
+    pub struct Mutex<T: ?Sized>(shuttle::sync::Mutex<T>);
+    impl<T> Mutex<T> {
+        pub const fn new(t: T) -> Self {
+            Mutex(shuttle::sync::Mutex::new(t))
+        }
+        pub fn into_inner(self) -> LockResult<T> {
+            self.0.into_inner()
+        }
+    }
+    impl<T: ?Sized> Mutex<T> {
+        pub fn lock(&self) -> LockResult<MutexGuard<'_, T>> {
+            let r = self.0.lock();
+            super::hold_point();
+            r
+        }
+        pub fn try_lock(&self) -> TryLockResult<MutexGuard<'_, T>> {
+            let r = self.0.try_lock();
+            if !matches!(r, Err(TryLockError::WouldBlock)) {
+                super::hold_point();
+            }
+            r
+        }
+        pub fn get_mut(&mut self) -> LockResult<&mut T> {
+            self.0.get_mut()
+        }
+        pub fn clear_poison(&self) {
+            self.0.clear_poison()
+        }
+    }
+    impl<T: Default> Default for Mutex<T> {
+        fn default() -> Self {
+            Mutex::new(T::default())
+        }
+    }
+    impl<T> From<T> for Mutex<T> {
+        fn from(t: T) -> Self {
+            Mutex::new(t)
+        }
+    }
+    impl<T: ?Sized + std::fmt::Debug> std::fmt::Debug for Mutex<T> {
+        fn fmt(&self, f: &mut std::fmt::Formatter<'_>) -> std::fmt::Result {
+            self.0.fmt(f)
+        }
+    }
+
+    pub struct RwLock<T: ?Sized>(shuttle::sync::RwLock<T>);
+    impl<T> RwLock<T> {
+        pub const fn new(t: T) -> Self {
+            RwLock(shuttle::sync::RwLock::new(t))
+        }
+        pub fn into_inner(self) -> LockResult<T> {
+            self.0.into_inner()
+        }
+    }
+    impl<T: ?Sized> RwLock<T> {
+        pub fn read(&self) -> LockResult<RwLockReadGuard<'_, T>> {
+            let r = self.0.read();
+            super::hold_point();
+            r
+        }
+        pub fn write(&self) -> LockResult<RwLockWriteGuard<'_, T>> {
+            let r = self.0.write();
+            super::hold_point();
+            r
+        }
+        pub fn try_read(&self) -> TryLockResult<RwLockReadGuard<'_, T>> {
+            let r = self.0.try_read();
+            if !matches!(r, Err(TryLockError::WouldBlock)) {
+                super::hold_point();
+            }
+            r
+        }
+        pub fn try_write(&self) -> TryLockResult<RwLockWriteGuard<'_, T>> {
+            let r = self.0.try_write();
+            if !matches!(r, Err(TryLockError::WouldBlock)) {
+                super::hold_point();
+            }
+            r
+        }
+        pub fn get_mut(&mut self) -> LockResult<&mut T> {
+            self.0.get_mut()
+        }
+        pub fn clear_poison(&self) {
+            self.0.clear_poison()
+        }
+    }
+    impl<T: Default> Default for RwLock<T> {
+        fn default() -> Self {
+            RwLock::new(T::default())
+        }
+    }
+    impl<T> From<T> for RwLock<T> {
+        fn from(t: T) -> Self {
+            RwLock::new(t)
+        }
+    }
+    impl<T: ?Sized + std::fmt::Debug> std::fmt::Debug for RwLock<T> {
+        fn fmt(&self, f: &mut std::fmt::Formatter<'_>) -> std::fmt::Result {
+            self.0.fmt(f)
+        }
+    }
 
     fn sp() {
         if !std::thread::panicking() {
@@ -482,6 +706,16 @@ pub mod time {
     /// harness side: (clock readings, clock jumps) so far in this process
     pub fn stats() -> (u64, u64) {
         (READS.with(|r| r.get()), JUMPS.with(|j| j.get()))
+    }
+
+    /// chrono's clock readings: the generated tree routes `Utc::now()` / `Local::now()` here, so that a change that
+    /// asks chrono for the current time reads the simulated clock too (2024-06-01T00:00:00Z at boot)
+    pub fn chrono_utc_now() -> chrono::DateTime<chrono::Utc> {
+        let n = EPOCH_AT_BOOT_NANOS + read() as u128;
+        chrono::DateTime::from_timestamp((n / 1_000_000_000) as i64, (n % 1_000_000_000) as u32).expect("simulated clock out of chrono's range")
+    }
+    pub fn chrono_local_now() -> chrono::DateTime<chrono::Local> {
+        chrono_utc_now().with_timezone(&chrono::Local)
     }
 
     #[derive(Clone, Copy, Debug, PartialEq, Eq, PartialOrd, Ord, Hash)]
